@@ -97,11 +97,8 @@ func (e *Exec) bindCallResult(cc *callCtx, v Val) {
 	}
 	for _, n := range cc.names {
 		names, ok := e.rootCtr.BindCalls[n]
-		if !ok || e.boundCalls[n] {
+		if !ok {
 			continue
-		}
-		if e.discovery == 0 {
-			e.boundCalls[n] = true
 		}
 		vals := v.Tup
 		if len(vals) == 0 {
@@ -109,8 +106,17 @@ func (e *Exec) bindCallResult(cc *callCtx, v Val) {
 		}
 		for i, nm := range names {
 			if nm != "_" && i < len(vals) {
-				e.rootBinders[nm] = vals[i]
+				if prev, ok := e.rootBinders[nm]; ok && e.boundCalls[n] && len(prev.Tup) == 0 && len(vals[i].Tup) == 0 && prev.Addr == nil && vals[i].Addr == nil &&
+					e.reg.sortOf(prev.T) == e.reg.sortOf(vals[i].T) {
+					// several call sites: the value of the site that was executed (later sites take precedence)
+					e.rootBinders[nm] = e.mergeVals([]Val{vals[i], prev}, []Term{cc.reach, "true"}, "bind_"+cleanSym(nm))
+				} else {
+					e.rootBinders[nm] = vals[i]
+				}
 			}
+		}
+		if e.discovery == 0 {
+			e.boundCalls[n] = true
 		}
 	}
 }
@@ -704,6 +710,9 @@ func (e *Exec) callByContract(cc *callCtx, fn *ssa.Function, ctr *FuncContract, 
 	}
 	e.applyHavoc(cc.st, ms)
 	res := e.havocVal(cc.resT, f.prefix+"call_"+cleanSym(ctr.Name))
+	if ctr.Pure {
+		res = e.uninterp("pure_"+cleanSym(funcKeyStr(ctr.Pkg+"."+ctr.Name)), cc.args, cc.resT)
+	}
 	var rets []Val
 	if len(res.Tup) > 0 {
 		rets = res.Tup
